@@ -19,7 +19,8 @@ def init_names(fb):
     q, g = set(), set()
     qc = []
     for b in fb.bodies(common.DAEMON):
-        if b.defkind == 'Closure' or not b.impl_trait or b.impl_trait.startswith('std::'):
+        # (methods of a trait impl, and methods the trait itself provides -- a default body the shipped poller inherits)
+        if b.defkind == 'Closure' or not (b.impl_trait or b.provided_of) or (b.impl_trait or '').startswith('std::'):
             continue
         if common.reaches_call(fb, b, lambda n: n.startswith('chrony_candm::') and 'blocking_query' in n):
             qc.append(b)
@@ -77,7 +78,7 @@ class PollerModel:
         # (a loop written against private traits -- clock, link to the writer, PHC source -- is explored with the only
         # implementation each trait has; the poller's own query / grace methods stay opaque calls, as in the trait form)
         self.engine = common.mk_engine(fb, havoc_loops=True, unique_impls=True,
-                                       no_inline=lambda b: bool(b.impl_trait) and b.name in (QUERY_METHODS | GRACE_METHODS))
+                                       no_inline=lambda b: bool(b.impl_trait or b.provided_of) and b.name in (QUERY_METHODS | GRACE_METHODS))
         self.paths = [p for p in self.engine.run(self.body) if p.kind != 'unreachable']
         chk.analysed['paths'] += len(self.paths)
         for p in self.engine.inlined:
